@@ -8,6 +8,7 @@ import numpy as np
 FS_BANDS = [
     (64, (4, 8)), (64, (6, 14)), (100, (8, 12)), (100, (6, 14)), (128, (8, 12)), (128, (13, 30)),
     (250, (8, 12)), (250, (13, 30)), (250, (4, 8)), (500, (8, 12)), (500, (13, 30)), (1000, (13, 30)),
+    (62.5, (4, 8)), (187.5, (8, 12)),
 ]
 KINDS = ['sine_bursts', 'asym', 'powerlaw_osc', 'two_osc', 'chirp', 'quantised', 'clipped', 'zeroed', 'dc_offset',
          'noisy_flat']
@@ -68,7 +69,7 @@ def to_grid(rng, x, kind):
         bits = int(rng.integers(6, 13))
     m = float(np.max(np.abs(x))) or 1.0
     q = np.round(x / m * (2 ** bits - 1)).astype(np.int64)
-    e = int(rng.integers(-20, 21))
+    e = int(rng.integers(-20, 21)) if rng.integers(0, 4) else int(rng.choice([-36, -30, 28, 34]))
     return q, e
 
 
